@@ -34,8 +34,13 @@ def static_field_problems(cls):
     for st in cls.node.body:
         if isinstance(st, ast.AnnAssign) and st.value is not None and isinstance(st.value, ast.Call) and ast.unparse(st.value.func).endswith("field"):
             is_static = any(k.arg == "static" and isinstance(k.value, ast.Constant) and k.value.value is True for k in st.value.keywords)
-            if is_static and bta.ann_kind(ast.unparse(st.annotation)) == "dynamic":
+            kind = bta.ann_kind(ast.unparse(st.annotation))
+            if is_static and kind == "dynamic":
                 out.append(f"{cls.qual}.{st.target.id}: array-typed field declared static")
+            elif is_static and kind == "module":
+                # Callable / module / container typed: the value may be (or hold) a module with array parameters, which a static
+                # field removes from the pytree leaves (not trained, not serialised, baked into jit caches)
+                out.append(f"{cls.qual}.{st.target.id}: field of type `{ast.unparse(st.annotation)}` (may hold a module with arrays) declared static")
     return out
 
 
@@ -72,7 +77,7 @@ def purity(ctx):
                         ctx.oblige(f"C14/{cls.__name__}.{st.name}/{label}", not fs, [], props, kind=label, fn=q, replay=dict(kind="c14", cls=cls.__name__, method=st.name, vars={}),
                                    note="; ".join(f"line {ln}: {txt}" for _k, ln, txt in fs)[:600])
             sp = static_field_problems(cls)
-            ctx.oblige(f"C14/{cls.__name__}/struct/fields", not sp, [], props, kind="struct/fields", fn=cls.qual, note="; ".join(sp)[:400])
+            ctx.oblige(f"C14/{cls.__name__}/struct/fields", not sp, [], props, kind="struct/fields", fn=cls.qual, note="; ".join(sp)[:400], replay=dict(kind="c14", cls=cls.__name__, method="", vars={}))
     # the bisection functions (value-dependent iteration only through lax.while_loop / lax.scan)
     mod = "flowjax.bisection_search"
     _p, tree = it.source.module(mod)
